@@ -19,6 +19,7 @@ import (
 	"errors"
 	"fmt"
 	"sync"
+	"sync/atomic"
 
 	internal "github.com/flanglet/kanzi-go/v2/internal"
 )
@@ -481,23 +482,43 @@ func (this *BWT) inverseBiPSIv2(src, dst []byte, count int) (uint, uint, error) 
 		ckSize++
 	}
 
+	// Sanity check: with an invalid primary index, a task would run out of bounds or never end
+	for i := 0; i < chunks; i++ {
+		if this.primaryIndexes[i] > uint(count) {
+			return 0, 0, errors.New("Invalid input: corrupted BWT primary index")
+		}
+	}
+
 	nbTasks := min(int(this.jobs), chunks)
 	jobsPerTask, _ := internal.ComputeJobsPerTask(make([]uint, nbTasks), uint(chunks), uint(nbTasks))
 	var wg sync.WaitGroup
+	var failures int32
 
 	for j, c := 0, 0; j < nbTasks; j++ {
 		wg.Add(1)
 		start := c * ckSize
 
 		go func(dst []byte, buckets []int, fastBits []uint16, indexes []uint, total, start, ckSize, firstChunk, lastChunk int) {
+			defer wg.Done()
+
+			defer func() {
+				// A panic in this goroutine would kill the process: report invalid data instead
+				if r := recover(); r != nil {
+					atomic.AddInt32(&failures, 1)
+				}
+			}()
+
 			this.inverseBiPSIv2Task(dst, buckets, fastBits, indexes, total, start, ckSize, firstChunk, lastChunk)
-			wg.Done()
 		}(dst, buckets[:], fastBits, this.primaryIndexes[:], count, start, ckSize, c, c+int(jobsPerTask[j]))
 
 		c += int(jobsPerTask[j])
 	}
 
 	wg.Wait()
+
+	if atomic.LoadInt32(&failures) != 0 {
+		return 0, 0, errors.New("Invalid input: corrupted BWT data")
+	}
 
 	dst[count-1] = byte(lastc)
 	return uint(count), uint(count), nil
